@@ -229,6 +229,10 @@ def rule_repr_err(ctx, cd):
                 ok = saved is not None and len(adv_raw) == 1 and re.fullmatch(rf"{saved} \* 8U?", adv_raw[0]) is not None
                 ctx.ob(R, t.rel, f"{lang}: cursor advances by the stored delimiter header value", ok, "" if ok else f"advances {adv}: implicit truncation of nested objects is lost")
             else:
+                if sz_ph is None and lang == "cpp":
+                    # the window is `in_buffer.subspan()` (everything that is left): the consumed size is what the nested call reports
+                    mv = re.search(r"\b(Pz\d+z) = Pz\d+z\.value\(\);", text)
+                    sz_ph = mv.group(1) if mv else None
                 ok = sz_ph is not None and len(adv_raw) == 1 and re.fullmatch(rf"{sz_ph} \* 8U?", adv_raw[0]) is not None
                 ctx.ob(R, t.rel, f"{lang}: sealed nested object: cursor advances by the consumed size", ok, "" if ok else f"advances {adv}")
     rule_nested_bound(ctx, cd, "R-C02-NESTED-BOUND")
@@ -295,6 +299,8 @@ def rule_nested_bound(ctx, cd, RB):
             else:
                 m = re.search(r"\bdeserialize ?\( ?(Pz\d+z), in_buffer\.subspan\(([^)]*)\) ?\)", text)
                 ok = m is not None and sz is not None and re.match(rf"^0U?, {sz}$", m.group(2).strip()) is not None
+                if not deli and m is not None and m.group(2).strip() == "":
+                    ok = True      # a sealed object is not delimited: `subspan()` is the same window as `subspan(0, <all that is left>)`
             ctx.ob(RB, t.rel, f"{lang}: nested window is bounded by the size variable [{'delimited' if deli else 'sealed'}]", ok,
                    "" if ok else "the nested deserializer can read past the end announced by the delimiter header: fields missing in a shorter "
                    "(older) encoding are filled from the following sibling's bytes instead of zeros")
